@@ -108,7 +108,7 @@ for f in ('kingAttacks', 'knightAttacks', 'wPawnAttacks', 'bPawnAttacks'):
     HARNESS += 'void h_%s(void) { int s = nondet_int(); hv(); BitBoard_%s(s); CANARY_POINT; }\n' % (f, f)
     GROUPS.append(Group(f, 'h_' + f, enforce='BitBoard_' + f, min_props=2))
 HARNESS += 'void h_between_row(void) { int s = nondet_int(); hv(); BitBoard_init_between_row(s); CANARY_POINT; }\n'
-GROUPS.append(Group('init_between_row', 'h_between_row', enforce='BitBoard_init_between_row', min_props=3, timeout=3600, cases=('CASE_ROW', list(range(64)))))
+GROUPS.append(Group('init_between_row', 'h_between_row', enforce='BitBoard_init_between_row', min_props=3, timeout=3600, tier='thorough', cases=('CASE_ROW', list(range(64)))))
 HARNESS += 'void h_squaresBetween(void) { int a = nondet_int(), b = nondet_int(); hv(); BitBoard_squaresBetween(a, b); CANARY_POINT; }\n'
 GROUPS.append(Group('squaresBetween', 'h_squaresBetween', enforce='BitBoard_squaresBetween', min_props=2, canary=False,
                     note='canary switched off: the reachability query alone needs more than 10 min; the precondition is a single table equality'))
